@@ -314,6 +314,19 @@ theorem height_is_renyi_entropy_stab (m : Nat) (t : STab) (k : Nat) (hn : t.n = 
   rw [hρ, ← hexp]
   exact ⟨c1, tr1, c2⟩
 
+/-- every element of a list is below its running maximum -/
+theorem le_foldl_max (hs : List Int) : ∀ h0 : Int, h0 ≤ hs.foldl max h0 ∧ ∀ x, x ∈ hs → x ≤ hs.foldl max h0 := by
+  induction hs with
+  | nil => intro h0; exact ⟨le_refl _, fun x hx => by cases hx⟩
+  | cons a rest ih =>
+    intro h0
+    obtain ⟨i1, i2⟩ := ih (max h0 a)
+    refine ⟨le_trans (le_max_left h0 a) i1, fun x hx => ?_⟩
+    rcases List.mem_cons.mp hx with e | e
+    · rw [e]; exact le_trans (le_max_right h0 a) i1
+    · exact i2 x e
+
+
 /-! ### non-vacuity: the Bell pair -/
 
 /-- Bell pair with generators `XX`, `ZZ` and destabilizers `Z₀`, `X₁` -/
